@@ -40,6 +40,81 @@ CHECKS = {
     ),
 }
 
+CHECKS.update({
+    "C03": dict(
+        technique="runtime exception-class monitor on all public entry points under fuzzed and corrupted calls; harness-side classifier (own bracket matcher, solver S) for ill-formed calls; invocation counter on compiled functions",
+        text="Exploration: (i) tens of thousands of hostile calls (token soup, wrong types/counts, hostile keyword values) on every public entry point with an oracle-free monitor for internal exception classes; (ii) single-edit corruptions of valid generated calls which the harness proves ill-formed must raise a documented class, return nothing and never reach the compiled function.",
+        note="Only corruptions the harness can prove ill-formed are judged by (ii); ValueError/TypeError accepted only when the edit touched argument counts/types.",
+        ref="3/C03",
+    ),
+    "C04": dict(
+        technique="runtime monitor with hooks on tracer.optimize / compiler.compile / exec audit events; independent IR interpreter as oracle; evaluation-count instrumentation on synthetic IR graphs",
+        text="Exploration: for every compilation observed (generated calls of all families) the text of graph=True, the cache entry, the exec()'d code object and the running function are compared; exec(text) in a namespace holding only the listed constants is run against a node-by-node interpreter of the traced graph (values and argument side effects); thousands of synthetic IR graphs (in-place nodes, closures, multi-use values, dict/list outputs) are compiled by the real code generator and compared with the interpreter including per-object evaluation counts.",
+        note="Trusts the interpreter vf/ref/graph.py (self-tested); synthetic graphs restricted to patterns with call-count independent meaning.",
+        ref="3/C04",
+    ),
+    "C05": dict(
+        technique="runtime monitor: IR interpreter on the graph before and after the real optimiser; enumerated transpose/reshape chains built with einx's own signature objects and pattern list",
+        text="Exploration: pre/post optimisation graphs of generated calls plus every ordered pair of permutations up to rank 4/5, all pairs of factorisation shapes, random mixes with broadcast/concatenate/no-op members and shared intermediates are interpreted on identical inputs; pass counts are bounded and the result must be a fixed point.",
+        note="Trusts the IR interpreter; inputs use distinct values and both distinct and equal axis lengths.",
+        ref="3/C05",
+    ),
+    "C06": dict(
+        technique="runtime history monitor: outcome of every call in long random histories vs. the same call in a pristine interpreter forked from a zygote that never called einx",
+        text="Exploration: histories of 40-160 calls (valid, failing at parse/solve/semantic/run time, factories, adapters, confusable argument groups adjacent in both orders, with-blocks) are executed in one process; each outcome digest (exception class | dtype, shape, bytes | normalised graph text) must equal the pristine-process outcome; context stacks are checked after every call.",
+        note="Pristine oracle = os.fork from a zygote with einx imported and no call made; same hash seed. Fewer workers because fork/COW does not scale here.",
+        ref="3/C06",
+    ),
+    "C07": dict(
+        technique="relational runtime monitor: short form vs documented long form of generated calls on identical data",
+        text="Exploration: for each of 13 documented equivalences the harness derives the long form from its own AST and both forms are executed by the real einx; values, shapes, arity or exception class must agree.",
+        note="Each rule is applied only inside the scope the documentation gives it (see vf/gen/sugar.py comments).",
+        ref="3/C07",
+    ),
+    "C08": dict(
+        technique="metamorphic runtime monitor: renamed / permuted / regrouped / inverted / composed calls vs. the original call",
+        text="Exploration: six relations between two or three real executions (rename, input-permute, output-permute, group/ungroup, inversion, composition) over generated calls of all families and generated rearrangement triples.",
+        note="Position relations only for explicit outputs; bracketed root dimensions keep their relative order; expressions with several concatenations are not permuted.",
+        ref="3/C08",
+    ),
+    "C10": dict(
+        technique="controlled thread scheduler on sys.monitoring yield points with cooperative lock shim; oracle = set of outcomes of all serial orders executed on the real code",
+        text="Exploration: 2-3 thread programs of atomic API actions (calls, with-blocks, lookups, registrations, lazy imports, cold compilation) are run under thousands of seeded schedules (PCT-style preemption points, random switching; thorough: every single preemption point); the observed (outcome vector, final registry state) must be produced by some serial order of the same actions.",
+        note="Yield points only in einx's Python code; programs restricted to those whose serial orders are failure-free; hung schedule = inconclusive.",
+        ref="3/C10",
+    ),
+    "C11": dict(
+        technique="runtime reference-model monitor: registry.get on fresh registries with synthetic backends vs. an executable precedence model; replay under permuted registration order",
+        text="Exploration: random configurations (priorities with ties, eager/lazy registration, failing factories) and lookup histories are compared with a 50-line model of the documented precedence; every configuration is replayed under a second registration order; fixed checks on the real global registry.",
+        note="Synthetic backends stand in for frameworks that are not installed.",
+        ref="3/C11",
+    ),
+    "C13": dict(
+        technique="runtime monitor with instrumented tensor factories (invocation log: count, shape argument, keywords, tracing-on-stack, caller) + plain-tensor value oracle + solver S",
+        text="Exploration: generated calls with subsets of arguments replaced by factories of six signature classes, run cold / warm / other-factory / cold-again / graph=True / under-constrained / misbehaving.",
+        note="Value oracle is the same call with the factory's return value; S decides under-determination.",
+        ref="3/C13",
+    ),
+    "C15": dict(
+        technique="runtime monitor with instrumented user functions wrapped by the numpy adapters; loop reference with the same Python function; argument/option recording incl. types",
+        text="Exploration: reduce-style and element-wise user functions under G's grammars; recorded shapes, axis tuples and keyword-only options (value and type) are checked, results compared with the loop reference, misbehaving functions and option/axis name clashes must be rejected.",
+        note="adapt_with_vmap unreachable (no vmap framework installed).",
+        ref="3/C15",
+    ),
+    "C16": dict(
+        technique="cross-process runtime monitor: outcome digests of a fixed corpus under 8 PYTHONHASHSEED values, repetitions and recompilations",
+        text="Exploration: the same generated corpus is executed in worker processes with different hash seeds; per case the first call, a repetition, a recompilation after cache_clear and two graph=True texts are digested; digests must agree within and across processes.",
+        note="Corpus generator checked to be hash-seed independent (else inconclusive).",
+        ref="3/C16",
+    ),
+    "C17": dict(
+        technique="runtime monitor on generated code: AST whitelist, literal-abstracted AST equality across scaled sizes, sys.monitoring CALL-event sequences of the generated function",
+        text="Exploration: every generated call is compiled at base sizes and at two scaled size assignments with the same unit-axis pattern; structure must be identical up to integer literals and the dynamic sequence of backend calls must be equal.",
+        note="Numeric axes in the description and coordinate-count axes are not scaled.",
+        ref="3/C17",
+    ),
+})
+
 NOT_YET = {}
 
 
